@@ -152,8 +152,8 @@ Qed.
 
 (* agent level, executed instance: after any history without the private resize helper, the matrix held
    by the state machine that Check.v steps is that run *)
-Theorem executed_agent_sigma (lam : bigQ) (ly : layer) (ops : seq (@op bigQ)) :
+Theorem executed_agent_sigma (rr : bool) (lam : bigQ) (ly : layer) (ops : seq (@op bigQ)) :
   List.forallb no_resize ops = true ->
-  sig (List.fold_left Bstep ops (Binit lam ly)) = Bsigma_run lam (segment ly ops).1 (segment ly ops).2.
+  sig (List.fold_left (Bstep rr) ops (Binit lam ly)) = Bsigma_run lam (segment ly ops).1 (segment ly ops).2.
 Proof. exact: agent_sigma_is_run. Qed.
 End Executed.
